@@ -22,7 +22,7 @@ KINDS = ["node", "child", "set", "set", "req", "req", "req", "battery", "sketch"
 
 CHECK = HistoryCheck(
     "C05", {"reply", "ids", "reboot"}, RULE,
-    dict(max_ops=30, frame_kinds=KINDS, op_weights=dict(clock=6, metric=5, set=12, fw=3, save=2)), nontrivial,
+    dict(max_ops=30, frame_kinds=KINDS, wild_vt=True, op_weights=dict(clock=6, metric=5, set=12, fw=3, save=2)), nontrivial,
     quick=(16, 160), thorough=(16, 2500),
     assumptions=[
         "reference model vf/ref/model.py prescribes the reply; firmware replies are judged by C09/C10",
